@@ -153,9 +153,26 @@ pub fn classify_file(bytes: &[u8], config: sl::Config) -> FileClass {
 }
 
 pub fn classify_file_verify(bytes: &[u8], config: sl::Config, verify: bool) -> FileClass {
+    classify_file_full(bytes, config, (None, None), verify)
+}
+
+/// With `verify`, the expectation that verification fails does not rest on the library's verifier alone: when the
+/// text formatted WITHOUT verification has another semantic token sequence than the input (statements re-ordered by
+/// require sorting, say), verification has to reject it whatever the range.
+pub fn classify_file_full(bytes: &[u8], config: sl::Config, range: (Option<usize>, Option<usize>), verify: bool) -> FileClass {
+    if let (true, Ok(s)) = (verify, std::str::from_utf8(bytes)) {
+        if let Some(q0) = crate::cli::lib_format_full(s, config, range, false) {
+            let syn = Syntax::Lua51;
+            if let (Ok(a), Ok(b)) = (crate::lex::lex(s, syn), crate::lex::lex(&q0, syn)) {
+                if crate::lex::t_sequence(s, &a, syn) != crate::lex::t_sequence(&q0, &b, syn) {
+                    return FileClass::Error;
+                }
+            }
+        }
+    }
     match std::str::from_utf8(bytes) {
         Err(_) => FileClass::Error,
-        Ok(s) => match crate::cli::lib_format_full(s, config, (None, None), verify) {
+        Ok(s) => match crate::cli::lib_format_full(s, config, range, verify) {
             None => FileClass::Error,
             Some(q) if q == s => FileClass::Formatted,
             Some(q) => FileClass::Differs(q),
@@ -187,6 +204,24 @@ const DIRS: [&str; 4] = ["", "sub/", "sub/deep/", "other/"];
 struct TreeSpec {
     case: CliCase,
     names: Vec<String>,
+}
+
+/// thousands of already formatted lines with one unformatted line (even k) or one superfluous blank line (odd k) in
+/// the middle; 1 300 to 12 500 lines
+pub fn long_file_one_change(k: usize) -> String {
+    let n = [1300usize, 2600, 1300, 12_500, 1300, 2600, 1300, 12_500][k % 8];
+    let mut s = String::with_capacity(n * 20);
+    for i in 0..n {
+        if i == n / 2 {
+            if (k / 8) % 2 == 0 {
+                s.push_str("local   changed  =  1\n");
+            } else {
+                s.push_str("\n\n");
+            }
+        }
+        s.push_str(&format!("local v{i} = {i}\n"));
+    }
+    s
 }
 
 fn gen_tree(t: &mut Tape, labels: &mut Vec<&'static str>, with_errors: bool) -> TreeSpec {
@@ -228,9 +263,9 @@ fn gen_tree(t: &mut Tape, labels: &mut Vec<&'static str>, with_errors: bool) -> 
                 labels.push("file:sibling-name");
             }
         }
-        let class = t.pick(if with_errors { 14 } else { 10 });
+        let class = t.pick(if with_errors { 16 } else { 12 });
         // classes 5, 6, 7 and 13 only exist with errors: remap so that the others are the valid-file classes
-        let class = if with_errors { class } else { [0, 1, 2, 3, 4, 8, 9, 10, 11, 12][class] };
+        let class = if with_errors { class } else { [0, 1, 2, 3, 4, 8, 9, 10, 11, 12, 14, 15][class] };
         let variant = t.pick(8);
         let messy = messy_program(i + 10 * t.pick(4));
         let content: Vec<u8> = match class {
@@ -276,6 +311,16 @@ fn gen_tree(t: &mut Tape, labels: &mut Vec<&'static str>, with_errors: bool) -> 
                 labels.push("file:bom");
                 let f = lib_format(&messy, config).unwrap_or(messy);
                 format!("{}{f}", '\u{feff}').into_bytes()
+            }
+            15 => {
+                // requires out of order: with require sorting the statements are re-ordered (and `--verify` rejects that)
+                labels.push("file:requires-out-of-order");
+                format!("local zz{i} = require(\"zz\")\nlocal aa{i} = require(\"aa\")\nlocal mm = require(\"mm\")\n\n{messy}").into_bytes()
+            }
+            14 => {
+                // thousands of formatted lines and one to change (the changed fraction of the file is tiny)
+                labels.push("file:long-one-change");
+                long_file_one_change(variant + 8 * (i % 2)).into_bytes()
             }
             11 => {
                 // no token and no comment: the formatted form is the empty file
@@ -594,6 +639,17 @@ fn gen_c14(t: &mut Tape, labels: &mut Vec<&'static str>) -> Option<CliCase> {
         argv.push(["Json", "Standard", "json"][t.pick(3)].into());
         labels.push("output-format-in-write-mode");
     }
+    if t.chance(40) {
+        // a formatting range (byte offsets, applied to every file): failing files still stay untouched
+        let a = [0usize, 5, 30, 1000][t.pick(4)];
+        let b = [0usize, 12, 60, 100_000][t.pick(4)];
+        match t.pick(3) {
+            0 => argv.extend(["--range-start".to_string(), a.to_string()]),
+            1 => argv.extend(["--range-end".to_string(), b.to_string()]),
+            _ => argv.extend(["--range-start".to_string(), a.min(b).to_string(), "--range-end".to_string(), a.max(b).to_string()]),
+        }
+        labels.push("range");
+    }
     argv.extend(spec.case.argv.clone());
     argv.extend(gen_file_args(t, &spec, labels));
     // injected faults
@@ -637,7 +693,7 @@ fn c14_oracle(case: &CliCase, run: &CliRun) -> Verdict {
             continue;
         }
         let fault = faults.get(basename(rel)).map(|s| s.as_str());
-        let class = classify_file_verify(&before.bytes, config, args.verify);
+        let class = classify_file_full(&before.bytes, config, args.range, args.verify);
         match (&class, fault) {
             // formatting never starts for a file that cannot be read; injected failures at the format point
             (FileClass::Error, _) | (_, Some("panic")) | (_, Some("verify")) => {
@@ -837,8 +893,8 @@ fn gen_c18(t: &mut Tape, labels: &mut Vec<&'static str>) -> Option<CliCase> {
     let mut case = CliCase::default();
     case.files.insert(".editorconfig".into(), b"root = true\n".to_vec());
     let mut opts = gen_optcfg(t, false);
-    let kind = t.pick(12);
-    if kind == 7 || kind >= 10 {
+    let kind = t.pick(14);
+    if kind == 7 || kind == 10 || kind == 11 {
         opts.sort_requires = Some(true);
     }
     let config = opts.apply(sl::Config::default());
@@ -871,6 +927,11 @@ fn gen_c18(t: &mut Tape, labels: &mut Vec<&'static str>) -> Option<CliCase> {
             labels.push("pair:requires-at-end");
             let head = if kind == 10 { messy_program(k) } else { String::from("local x = 1\n") };
             format!("{head}\nlocal cc = require(\"cc\")\nlocal aa = require(\"aa\")\nlocal bb = require(\"bb\")\n")
+        }
+        12 | 13 => {
+            // thousands of formatted lines and a single line (or blank line) to change: the changed fraction is tiny
+            labels.push("pair:long-file-one-change");
+            long_file_one_change(k)
         }
         _ => format!("{}\nlocal   last_line   =   1", messy_program(k)),
     };
@@ -2131,7 +2192,23 @@ fn gen_c15(t: &mut Tape, labels: &mut Vec<&'static str>) -> Option<CliCase> {
         argv.extend(o.to_flags());
         labels.push("cli-overrides");
     }
-    match t.pick(7) {
+    match t.pick(8) {
+        7 => {
+            // a symbolic link in the working directory to a file two levels down (whose own name is not a Lua name):
+            // the search starts where the link is, and EditorConfig sections see the link's name
+            let mut b = crate::cli::SYMLINK_MARK.to_vec();
+            b.extend_from_slice(b"sub/subsub/real.dat");
+            case.files.insert(format!("{C15_CWD}/sub/subsub/real.dat"), crate::cli::PROBE.as_bytes().to_vec());
+            case.files.insert(format!("{C15_CWD}/link.lua"), b);
+            if t.chance(128) {
+                argv.push("link.lua".into());
+                labels.push("target:symlink-explicit");
+            } else {
+                // reached by walking the working directory together with the regular files
+                argv.push(".".into());
+                labels.push("target:symlink-in-directory");
+            }
+        }
         0 => {
             argv.push("t.lua".into());
             argv.push("u.lua".into());
@@ -2211,6 +2288,12 @@ fn c15_oracle(case: &CliCase, run: &CliRun) -> Verdict {
             None => (String::new(), rel.clone()),
         };
         let Some(cfg) = resolve_config(case, &args, &dir, &name) else { return Verdict::Skip("model cannot resolve") };
+        // a symbolic link: the text is the target's, and so is the file that gets rewritten
+        let rel = match case.files[rel].strip_prefix(crate::cli::SYMLINK_MARK) {
+            Some(target) => join_rel(&dir, &String::from_utf8_lossy(target)),
+            None => rel.clone(),
+        };
+        let rel = &rel;
         let text = String::from_utf8_lossy(&case.files[rel]).to_string();
         let Some(want) = lib_format(&text, cfg) else { return Verdict::Skip("probe does not format") };
         distinct.insert(describe(&cfg));
@@ -2635,11 +2718,25 @@ fn gen_c19(t: &mut Tape, labels: &mut Vec<&'static str>) -> Option<CliCase> {
         _ => {}
     }
     let mut argv: Vec<String> = Vec::new();
-    if t.chance(180) {
+    let check = t.chance(180);
+    if check {
         argv.push("--check".into());
         labels.push("mode:check");
     } else {
         labels.push("mode:write");
+    }
+    // the output format decides which thread reports an error and how (the json format writes parse errors itself
+    // instead of logging them): the exit status and the files must not depend on it
+    match t.pick(6) {
+        0 => {
+            argv.extend(["--output-format".to_string(), "json".to_string()]);
+            labels.push("output-format:json");
+        }
+        1 if check => {
+            argv.extend(["--output-format".to_string(), ["unified", "summary"][t.pick(2)].to_string()]);
+            labels.push("output-format:unified/summary");
+        }
+        _ => {}
     }
     argv.push("--num-threads".into());
     argv.push("2".into());
